@@ -186,6 +186,7 @@ class Model(object):
         self.funcs = {}
         self.classes = {}
         self.consulted = set()
+        self.renamed = {}
         if not os.path.isdir(self.pkgdir):
             raise AnalysisError("package directory missing: %s" % self.pkgdir)
         self._load()
@@ -239,8 +240,18 @@ class Model(object):
         for node in mi.tree.body:
             self._index_stmt(mi, node)
 
+    def _alpha(self, qual, node):
+        """Map renamed locals back onto the reference names (sa/alpha.py)."""
+        from . import alpha
+        short = qual[len(self.pkg) + 1:] if qual.startswith(self.pkg + ".") \
+            else qual
+        mp = alpha.normalise(short, node)
+        if mp:
+            self.renamed[short] = mp
+
     def _index_stmt(self, mi, node):
         if isinstance(node, (ast.FunctionDef, ast.AsyncFunctionDef)):
+            self._alpha(mi.name + "." + node.name, node)
             fi = FuncInfo(mi.name + "." + node.name, mi.name, None, node.name,
                           node, mi.relpath)
             mi.functions[node.name] = fi
@@ -252,6 +263,7 @@ class Model(object):
             self.classes[ci.qual] = ci
             for sub in node.body:
                 if isinstance(sub, (ast.FunctionDef, ast.AsyncFunctionDef)):
+                    self._alpha(ci.qual + "." + sub.name, sub)
                     fi = FuncInfo(ci.qual + "." + sub.name, mi.name, ci.qual,
                                   sub.name, sub, mi.relpath)
                     ci.methods[sub.name] = fi
